@@ -24,10 +24,15 @@ import (
 	"fmt"
 	"sort"
 	"strings"
+	"sync"
+	"time"
 
 	"dvh/internal/corekit"
+	"dvh/internal/crashstore"
+	"dvh/internal/memstore"
 	"dvh/internal/tr"
 
+	context2 "github.com/oneconcern/datamon/pkg/context"
 	"github.com/oneconcern/datamon/pkg/core"
 	"github.com/oneconcern/datamon/pkg/model"
 )
@@ -301,6 +306,109 @@ func (e *c08Env) pickName(r *tr.Rng) string {
 	}
 }
 
+// listUnfriendly lists all labels of repo (1) while one descriptor read fails transiently and the
+// consumer is slow, (2) while one label is deleted between the key scan and its descriptor read.
+// The reference is the plain listing; the verdict (`got`) is judged by the driver.
+func (e *c08Env) listUnfriendly(repo string, r *tr.Rng) {
+	ref, err := core.ListLabels(repo, e.env.Stores)
+	if err != nil || len(ref) < 4 {
+		return
+	}
+	want := map[string]string{}
+	for _, ld := range ref {
+		want[ld.Name] = ld.BundleID
+	}
+	run := func(stores context2.Stores, apply bool, batch int) (map[string]string, error) {
+		got := map[string]string{}
+		var mu sync.Mutex
+		err := corekit.Recover(func() error {
+			opts := []core.Option{core.BatchSize(batch), core.ConcurrentList(1 + r.Intn(4))}
+			if apply {
+				return core.ListLabelsApply(repo, stores, func(ld model.LabelDescriptor) error {
+					time.Sleep(3 * time.Millisecond) // a slow consumer (a pipe, a copy to another repo)
+					mu.Lock()
+					got[ld.Name] = ld.BundleID
+					mu.Unlock()
+					return nil
+				}, opts...)
+			}
+			lds, err := core.ListLabels(repo, stores, opts...)
+			for _, ld := range lds {
+				got[ld.Name] = ld.BundleID
+			}
+			return err
+		})
+		return got, err
+	}
+	classify := func(got map[string]string, err error, victim string) string {
+		if err != nil {
+			return "err"
+		}
+		for n, b := range want {
+			if n == victim {
+				continue
+			}
+			if got[n] != b {
+				return "missing:" + tr.Esc(n)
+			}
+		}
+		for n := range got {
+			if _, ok := want[n]; !ok {
+				return "extra:" + tr.Esc(n)
+			}
+		}
+		return "same"
+	}
+	for q := 0; q < 3; q++ {
+		g := &crashstore.Group{FailReadOp: "get", FailReadKey: "labels/", FailReadAt: 1 + r.Intn(len(ref))}
+		st := corekit.WithStores(e.env.Wal, e.env.ReadLog, e.env.Blob, crashstore.Wrap(g, "meta", e.env.Meta), crashstore.Wrap(g, "vmeta", e.env.VMeta))
+		batch := r.Pick(1, 1, 2)
+		got, err := run(st, q != 2, batch)
+		if g.Reads() < g.FailReadAt {
+			continue
+		}
+		e.c.w.Op(fmt.Sprintf("listf r=%s kind=read-fault at=%d bs=%d apply=%v got=%s", tr.Esc(repo), g.FailReadAt, batch, q != 2, classify(got, err, "")), "sound")
+		e.c.w.Count("list-unfriendly=read-fault")
+	}
+	for q := 0; q < 2; q++ {
+		victim := ref[r.Intn(len(ref))].Name
+		var vkey string
+		var vstore *memstore.Store
+		for _, ms := range []*memstore.Store{e.env.VMeta, e.env.Meta} {
+			for _, k := range ms.SortedKeys() {
+				if strings.Contains(k, "/"+repo+"/"+victim+"/") && strings.HasPrefix(k, "labels/") {
+					vkey, vstore = k, ms
+				}
+			}
+		}
+		if vkey == "" {
+			continue
+		}
+		saved, _ := vstore.Raw(vkey)
+		var once sync.Once
+		g := &crashstore.Group{}
+		g.Hook = func(_, op, key string) {
+			if op == "get" && key == vkey {
+				once.Do(func() { vstore.RemoveRaw(vkey) }) // another client deletes the label right now
+			}
+		}
+		st := corekit.WithStores(e.env.Wal, e.env.ReadLog, e.env.Blob, crashstore.Wrap(g, "meta", e.env.Meta), crashstore.Wrap(g, "vmeta", e.env.VMeta))
+		batch := r.Pick(0, 7, 3)
+		conc := 1 + r.Intn(2)
+		got := map[string]string{}
+		err := corekit.Recover(func() error {
+			lds, err := core.ListLabels(repo, st, core.BatchSize(batch), core.ConcurrentList(conc))
+			for _, ld := range lds {
+				got[ld.Name] = ld.BundleID
+			}
+			return err
+		})
+		vstore.SetRaw(vkey, saved) // the model never saw the deletion: put the label back
+		e.c.w.Op(fmt.Sprintf("listf r=%s kind=concurrent-delete victim=%s bs=%d got=%s", tr.Esc(repo), tr.Esc(victim), batch, classify(got, err, victim)), "sound")
+		e.c.w.Count("list-unfriendly=concurrent-delete")
+	}
+}
+
 func c08(c *ctx) error {
 	nCases, maxOps := 40, 60
 	if c.thorough() {
@@ -421,6 +529,16 @@ func c08(c *ctx) error {
 			for _, n := range names {
 				e.get(repo, n)
 			}
+		}
+		// a repository with enough labels for several listing pages, listed under unfriendly
+		// conditions: the listing fails, or it is exactly the live labels (every label nobody touched)
+		if ci%2 == 0 {
+			repo := repos[0]
+			for j := 0; j < 7; j++ {
+				e.set(repo, fmt.Sprintf("bulk-%d", j), e.ofRepo[repo][r.Intn(len(e.ofRepo[repo]))])
+			}
+			e.list(repo, "", 0)
+			e.listUnfriendly(repo, r)
 		}
 		c.w.End()
 	}
